@@ -12,9 +12,28 @@ import (
 
 func checkRunprogFinalVerdict(c *Check, rule string) {
 	p := c.P
-	start := p.Func("cmd/runprog", "start")
+	// the function of the command that stores limit verdicts depending on a usage comparison: start(), or a helper
+	// the re-classification was moved into
+	var start *ssa.Function
+	for _, fn := range p.PkgFuncs("cmd/runprog") {
+		n := 0
+		for _, b := range fn.Blocks {
+			for _, in := range b.Instrs {
+				if st, ok := in.(*ssa.Store); ok {
+					if fa, ok := st.Addr.(*ssa.FieldAddr); ok && fieldName(fa.X.Type(), fa.Field) == "Status" {
+						if _, isC := constInt(st.Val); isC {
+							n++
+						}
+					}
+				}
+			}
+		}
+		if n >= 2 && (start == nil || fn.Name() == "start") {
+			start = fn
+		}
+	}
 	if start == nil {
-		c.Undecided(rule, "cmd/runprog.start", "-", "function not found")
+		c.Undecided(rule, "cmd/runprog:final-verdict", "-", "no function of the command stores limit verdicts")
 		return
 	}
 	status := func(n string) int64 { return p.MustConst(repoModule+"/runner", n) }
